@@ -135,6 +135,9 @@ def raw_apps(iface):
                 if shape == "cookie_ws":  # hand-built lines with optional whitespace at either end, a trailing "; ", inner runs of blanks
                     start_response("200 OK", [("content-type", "text/plain"), ("set-cookie", "theme=dark; Path=/; "), ("set-cookie", " sid=1"), ("set-cookie", "k=v "), ("x-sp", " padded  value "), ("x-sp", "two  blanks")])
                     return [b"hello"]
+                if shape == "empty_value":  # a field that is present and empty is a field
+                    start_response("200 OK", [("content-type", "text/plain"), ("access-control-expose-headers", ""), ("x-empty", ""), ("set-cookie", "a=1")])
+                    return [b"hello"]
                 if shape == "list_caps":  # a plain WSGI app is free to capitalise header names
                     start_response("200 OK", [("Content-Type", "text/plain"), ("Set-Cookie", "a=1"), ("Set-Cookie", "b=2"), ("X-Multi", "1"), ("X-Multi", "2"), ("x-multi", "3")])
                     return [b"hello"]
@@ -210,7 +213,7 @@ def raw_apps(iface):
             app.calls = 0
             app.closed = 0
             return app
-        return {s: (lambda s=s: mk(s)) for s in ("list", "map_raise_later", "iter_list", "no_headers", "list_caps", "cookie_ws", "restart_exc_info", "list2", "tuple", "empty", "empty_iter", "gen", "closeable", "raise_before", "raise_after_start", "raise_after_chunk", "empty_then_raise", "empty_then_body", "sees_environ", "sees_falsy", "gen_raise_before_start", "typeerror_before", "attributeerror_before")}
+        return {s: (lambda s=s: mk(s)) for s in ("list", "empty_value", "map_raise_later", "iter_list", "no_headers", "list_caps", "cookie_ws", "restart_exc_info", "list2", "tuple", "empty", "empty_iter", "gen", "closeable", "raise_before", "raise_after_start", "raise_after_chunk", "empty_then_raise", "empty_then_body", "sees_environ", "sees_falsy", "gen_raise_before_start", "typeerror_before", "attributeerror_before")}
 
     def amk(shape):
         async def app(scope, receive, send):
@@ -224,6 +227,23 @@ def raw_apps(iface):
                 await send({"type": "http.response.body", "body": b""})
                 return
             hdrs = [(b"content-type", b"text/plain"), (b"set-cookie", b"a=1"), (b"set-cookie", b"b=Jos\xe9"), (b"x-multi", b"1"), (b"x-multi", b"2")]
+            if shape == "empty_value":  # a field that is present and empty is a field
+                hdrs = [(b"content-type", b"text/plain"), (b"access-control-expose-headers", b""), (b"x-empty", b""), (b"set-cookie", b"a=1")]
+            if shape == "own_list":
+                # an application that keeps one header list and one message dict of its own: the headers of this request are appended
+                # before the start message is sent and taken out again afterwards; the same dict then carries the body
+                perm = app.__dict__.setdefault("perm", [(b"content-type", b"text/plain"), (b"x-app", b"1")])
+                extra = [(b"x-request-id", b"%d" % app.calls), (b"set-cookie", b"a=1"), (b"set-cookie", b"b=2")]
+                perm.extend(extra)
+                msg = app.__dict__.setdefault("msg", {})
+                msg.clear()
+                msg.update({"type": "http.response.start", "status": 200, "headers": perm})
+                await send(msg)
+                del perm[-len(extra):]
+                msg.clear()
+                msg.update({"type": "http.response.body", "body": b"own objects", "more_body": False})
+                await send(msg)
+                return
             if shape == "caps":  # an application of some other framework that writes header names the way they are printed in the RFCs
                 hdrs = [(b"Content-Type", b"text/plain"), (b"Set-Cookie", b"a=1; Path=/"), (b"Set-Cookie", b"b=2; Expires=Wed, 21 Oct 2026 07:28:00 GMT"), (b"SET-COOKIE", b"c=3"), (b"X-Multi", b"1"), (b"x-multi", b"2")]
             if shape == "utf8_headers":  # header bytes that happen to be valid UTF-8 must come out as the same bytes
@@ -246,7 +266,7 @@ def raw_apps(iface):
                 return
             if shape == "raise_after_start":
                 raise Boom("after start")
-            n = {"one": 1, "two": 2, "three": 3, "nobody": 0, "raise_after_chunk": 2, "utf8_headers": 1, "caps": 1}[shape]
+            n = {"one": 1, "two": 2, "three": 3, "nobody": 0, "raise_after_chunk": 2, "utf8_headers": 1, "caps": 1, "empty_value": 1}[shape]
             if n == 0:
                 await send({"type": "http.response.body"})
                 return
@@ -257,7 +277,7 @@ def raw_apps(iface):
         app.calls = 0
         app.closed = 0
         return app
-    return {s: (lambda s=s: amk(s)) for s in ("one", "caps", "no_headers", "two", "three", "nobody", "one_nokey", "two_nokey", "sees_scope", "utf8_headers", "mixed_sizes", "headers_iter", "raise_before", "raise_after_start", "raise_after_chunk", "typeerror_before", "attributeerror_before")}
+    return {s: (lambda s=s: amk(s)) for s in ("one", "caps", "empty_value", "own_list", "no_headers", "two", "three", "nobody", "one_nokey", "two_nokey", "sees_scope", "utf8_headers", "mixed_sizes", "headers_iter", "raise_before", "raise_after_start", "raise_after_chunk", "typeerror_before", "attributeerror_before")}
 
 
 # ------------------------------------------------------------------ wrappers
